@@ -22,7 +22,8 @@ def run(ctx):
         # every fifth schedule hammers failing calls only (error objects and their messages are results too, and are built in shared library code)
         # ... and every fifth + 2 schedule walks through the API function by function (all threads on the same function, special macro values over-represented)
         nfam = max(1, nseeds // 5)
-        args = (["c17", 8 + (i % 9), calls * 2, 40 + i % 7, "errors"] if i % 5 == 4 else
+        args = (["c17", 8, 1500, 16, "groups"] if i % 10 == 7 else
+                ["c17", 8 + (i % 9), calls * 2, 40 + i % 7, "errors"] if i % 5 == 4 else
                 ["c17", 12 + (i % 5), calls, 8, "files"] if i % 5 == 1 else
                 ["c17", 8 + (i % 5), 250 if ctx.quick else 600, 48, "family", i // 5, nfam] if i % 5 == 2 else ["c17", 8 + (i % 9), calls, 300 + 37 * (i % 11)])
         r = ctx.run_harness(exe, args, out, env={"VERIF_SEED": str(ctx.seed * 10000 + i), "TSAN_OPTIONS": "halt_on_error=0 log_path=%s report_signal_unsafe=0" % log}, timeout=3000)
